@@ -67,6 +67,22 @@ pub open spec fn skip_end(t: Seq<char>, p: int) -> int
     else if t[p] == '\n' || !is_ws(t[p]) { p }
     else { skip_end(t, p + 1) }
 }
+// (the precondition `skip_end(t, p) >= p` that unit V-lextoken states for next_token)
+pub proof fn lemma_skip_end_bounds(t: Seq<char>, p: int)
+    requires 0 <= p <= t.len(),
+    ensures p <= skip_end(t, p) <= t.len(),
+    decreases t.len() - p
+{
+    if p < t.len() {
+        if t[p] == '#' {
+            lemma_line_end(t, p);
+            let e = line_end(t, p);
+            if p < e && e <= t.len() { lemma_skip_end_bounds(t, e); }
+        } else if !(t[p] == '\n' || !is_ws(t[p])) {
+            lemma_skip_end_bounds(t, p + 1);
+        }
+    }
+}
 """
 
 SPEC = r"""
